@@ -25,7 +25,8 @@ KINDS = ['set with raising watcher', 'update rejected value', 'trigger with rais
          'trigger unknown name', 'update rejected value before an Event key', 'trigger a,e with raising watcher',
          'update a,e with raising watcher', 'trigger of a linked parameter with raising watcher',
          'source update rejected by the linked parameter', 'source update with raising watcher on the linked parameter',
-         'set Event with raising watcher', 'batch{b=2; trigger of an unknown name}', 'queued watcher assigns b then raises']
+         'set Event with raising watcher', 'batch{b=2; trigger of an unknown name}', 'queued watcher assigns b then raises',
+         'batch{b=2; trigger of a list invalidated in place}']
 
 
 class Boom(Exception):
@@ -38,6 +39,7 @@ class P(param.Parameterized):
     e = param.Event()
     c = param.Integer(default=3, constant=True)
     l = param.Integer(default=0, bounds=(0, 10), allow_refs=True)
+    li = param.List(default=[1], item_type=int)
 
 
 class Src(param.Parameterized):
@@ -153,6 +155,12 @@ def _fault(p, arm, kind, v, pos):
             arm['on'] = True
             arm['assign'] = True
             p.a = v
+        elif kind == 22:
+            with batch_call_watchers(p):
+                p.b = 2
+                p.li = [1]
+                p.li.append('bad')        # now invalid; trigger re-validates and fails after it has parked the queues
+                p.param.trigger('li')
         return False, None
     except (Boom, ValueError, TypeError, KeyError) as ex:
         return True, type(ex).__name__
@@ -225,7 +233,7 @@ def prog(k1: int, k2: int, in_batch: bool, pr_r: int, v1: int, v2: int, pos1: bo
         if pos1:
             got = any(t[0] == 'S' and any(ev[0] == 'a' and ev[2] is v1 for ev in t[1]) for t in trace[n_before:])
             check('C05.announced_by_raise', got, dict(info, ntrace=len(trace) - n_before))
-    if k1 == 20 and k2 < 0:
+    if k1 in (20, 22) and k2 < 0:
         # b = 2 was applied (and queued) before the failing trigger: it is announced once the batch has been left
         got = any(t[0] == 'O' and any(ev[0] == 'b' and ev[2] == (7 if in_batch else 2) for ev in t[1]) for t in trace[n_before:])
         check('C05.announced_by_raise', got, dict(info, ntrace=len(trace) - n_before))
